@@ -14,6 +14,15 @@ Real code driven (never copied):
                   raw body by this file (before the repository's validator rewrites it); the grant is read off what was STORED: the
                   jobs row, the spec written to the spec file for the worker (v1: the row's spec), the machine spec of the row
                   (what a job-private instance is created from).
+  phase reconfig: ONE long-lived front-end configuration (``InstanceCollectionConfigs.create`` on rows of a fake inst_colls/pools/resources
+                  database, i.e. through ``PoolConfig.from_record``) through a HISTORY: operator edits of the pools rows (worker cores, label,
+                  local ssd, a new pool, preemptibility; prices move too) and the periodic reload (``front_end._refresh`` /
+                  ``InstanceCollectionConfigs.refresh``) running as a task on the same loop, its database reads taking 0..5 loop turns and
+                  delivering rows one by one, while the SAME few requests (aimed at the pools of every configuration of the history; both
+                  ``select_inst_coll`` calls and create-jobs calls through ``_create_jobs``) are asked after start-up, before the edit, between
+                  edit and reload, while the reload is in flight, and after it returned.  Each answer is judged by the oracle below against
+                  the configuration the service HOLDS then, derived from what the fake database SERVED to the loads: after a load returned,
+                  exactly the rows it was served; during a load, the rows of the last completed load or those already served to this one.
 Oracle (independent of the code under test):
   * exact value of every request string with ``fractions.Fraction`` (own recogniser of the schema grammar);
   * memory per core from the machine-type *tables* (memory/cores of a listed machine), not from ``*_memory_per_core_mib``;
@@ -41,7 +50,11 @@ RULE = (
     '(cloud, branch, outcome class, chosen worker type/cores, granted cores, which resource drove the grant). Phase forms: raw job bodies '
     'over (process: deprecated command+image | docker | jvm) x (resources: absent | {} | dict) x (storage: none | resources.storage | '
     'deprecated pvc_size | both) x unrelated job keys x batch format version 1..7, singly and as one bunch of the singly accepted jobs; '
-    'distinct additionally by that form triple.'
+    'distinct additionally by that form triple. Phase reconfig: histories = generated deployment, then 1..4 x (0..2 operator edits of the pools '
+    'rows out of cores | label | local-ssd | added pool | preemptible, prices reshuffled; reload as a concurrent task with 0..5 loop turns of '
+    'latency per read and 0..1 between rows), 3..6 requests per history aimed at the worker sizes / labels / preemptibility of the pools of '
+    'every configuration in it, each asked at five kinds of moments (after start-up, steady, edited-not-reloaded, in-flight, after-reload); '
+    'distinct by (edit kinds, set of (moment, level, branch, outcome)).'
 )
 ASSUMPTIONS = [
     'a worker really has the memory/cores listed for its machine type in the repository machine-type tables',
@@ -52,8 +65,14 @@ ASSUMPTIONS = [
     'the deprecated top-level pvc_size means resources.storage (comment table in front_end/validate.py); a body the schema refuses is outside the quantifier (counted only)',
     'documented jvm rules are not "unsatisfiable" rejections: cpu given => 1, 2, 4 or 8 cores; no lowmem; no machine_type',
     'spec file layout: 8-byte little-endian start offsets followed by the end offset (own decoder)',
+    'reconfig: the configuration the service holds is what its loads were served by the database: after a load returned, exactly the rows served '
+    'to it; while a load is in flight, those of the last completed load or those already served to the running one (a request served in that '
+    'window may be answered for either); between an edit and the next completed load the old configuration is still the held one',
+    'reconfig: the resources table has a rate for every product of every pool of the history (as the deployed table has); a reload that raises '
+    'makes the rest of that history undecidable (INCONCLUSIVE), it is not a violation of this property',
 ]
 TRUSTED_BASE = ['fractions.Fraction request evaluator and satisfiability predicate (this file)', 'recording fake of gear.Database (vf/gen_batch_pure.py)',
+                'fake configuration tables with loop-turn latency (ConfigDB, this file); plain asyncio loop, asyncio.sleep(0) turns only',
                 'inert stubs for prometheus/google/azure SDK imports (never on the deciding path)']
 FORBIDDEN_STUBS = ('aiomysql', 'pymysql', 'google', 'azure', 'kubernetes_asyncio', 'googlecloudprofiler')  # imported only, never called
 SHARDS = {'quick': 2, 'thorough': 16}
@@ -64,7 +83,14 @@ FLOORS = {'granted': 4000, 'rejected_unsatisfiable': 500, 'handler_calls': 1500,
           'forms_accepted_nonzero_pvc_size_without_other_resources': 200, 'forms_accepted_all_defaults': 120,
           'forms_resources_absent': 650, 'forms_resources_empty-dict': 650, 'forms_accepted_deprecated-command-image': 500,
           'forms_accepted_jvm': 160, 'forms_bunch_jobs_accepted': 700, 'forms_stored_specs_judged': 2000,
-          'forms_machine_specs_judged': 270, 'forms_format_versions': 7}
+          'forms_machine_specs_judged': 270, 'forms_format_versions': 7,
+          # phase reconfig (about half of the minimum over quick seeds 0..4)
+          'reconfig_histories': 500, 'reconfig_edits': 1000, 'reconfig_reloads_completed': 1150, 'reconfig_reloads_through_front_end_refresh': 700,
+          'reconfig_select_calls': 11000, 'reconfig_handler_calls': 6500, 'reconfig_asked_while_reload_in_flight': 7000,
+          'reconfig_asked_after_reload': 5300, 'reconfig_answers_changed_by_reload': 480,
+          'reconfig_answers_changed_by_reload_also_asked_in_flight': 300,
+          'reconfig_in_flight_answers_right_only_for_the_configuration_being_replaced': 380,
+          'reconfig_edit_cores': 590, 'reconfig_edit_label': 240, 'reconfig_edit_add': 215, 'reconfig_edit_ssd': 115, 'reconfig_edit_preemptible': 110}
 
 GIB = 1024**3
 MAX_STORAGE = {'gcp': 64 * 1024 * GIB, 'azure': 32 * 1024 * GIB}
@@ -899,6 +925,469 @@ def run(ctx):
                 ctx.count('forms_bunch_jobs_accepted')
             ks.append((form,) + k[:3])
         ctx.case(sample=w, key=('forms', cloud, 'bunch', version > 1, tuple(sorted(map(str, ks)))))
+
+    # ============ phase reconfig ==================================================================
+    # "... on every cloud and pool configuration": the configuration is not a constant of the service.  The front end LOADS it from
+    # the inst_colls / pools rows (InstanceCollectionConfigs.create -> PoolConfig.from_record), an operator EDITS those rows (the
+    # driver's pool config page: worker cores, label, disks; new pools by migration / SQL), and the front end RELOADS them every 5 s
+    # (front_end._refresh -> InstanceCollectionConfigs.refresh) on the same event loop that serves create-jobs requests.  This
+    # phase keeps ONE long-lived front-end configuration object through a history of edits and reloads, with the same small set of
+    # requests asked again and again: before an edit, between the edit and the reload, WHILE the reload waits for its database
+    # reads (any number of loop turns, rows arriving one by one), and after it returned.  Every answer is judged by the same
+    # oracle as above against the configuration the service HOLDS at that moment, which this file derives from what its own fake
+    # database SERVED to the loads (never from the object under test): after a load returned, exactly the rows that load was served;
+    # while a load is in flight, the rows of the last completed load or the rows already served to the running one.
+    import zlib
+
+    from aiohttp import web
+    from batch.cloud.utils import possible_cloud_locations
+    from batch.inst_coll_config import InstanceCollectionConfigs
+
+    class Probe:
+        """stands in for ctx while an answer is judged under ONE candidate configuration"""
+
+        def __init__(self):
+            self.violations = []
+            self.counts = []
+
+        def violation(self, key, what, witness=None):
+            self.violations.append((key, what))
+
+        def count(self, name, n=1):
+            self.counts.append((name, n))
+
+        def seen(self, family, value):
+            pass
+
+    def judged_by_probe(fn):
+        nonlocal ctx
+        real, probe = ctx, Probe()
+        ctx = probe
+        try:
+            out = fn()
+        finally:
+            ctx = real
+        return probe, out
+
+    def row_of_pool(p):
+        """the inst_colls LEFT JOIN pools record of a pool, as the MySQL driver returns it (booleans are 0/1)"""
+        return {'name': p.name, 'is_pool': 1, 'cloud': p.cloud, 'worker_type': p.worker_type, 'worker_cores': p.worker_cores,
+                'worker_local_ssd_data_disk': int(bool(p.worker_local_ssd_data_disk)),
+                'worker_external_ssd_data_disk_size_gb': p.worker_external_ssd_data_disk_size_gb,
+                'standing_worker_cores': p.standing_worker_cores, 'boot_disk_size_gb': p.boot_disk_size_gb,
+                'min_instances': p.min_instances, 'max_instances': p.max_instances, 'max_live_instances': p.max_live_instances,
+                'preemptible': int(bool(p.preemptible)), 'max_new_instances_per_autoscaler_loop': p.max_new_instances_per_autoscaler_loop,
+                'autoscaler_loop_period_secs': p.autoscaler_loop_period_secs, 'worker_max_idle_time_secs': p.worker_max_idle_time_secs,
+                'standing_worker_max_idle_time_secs': p.standing_worker_max_idle_time_secs,
+                'job_queue_scheduling_window_secs': p.job_queue_scheduling_window_secs, 'label': p.label}
+
+    def row_of_job_private(jc):
+        row = dict.fromkeys(row_of_pool(g.make_pool_config('x', cloud, g.WORKER_TYPES[cloud][0], 1, True, '', False)))  # pools.* are NULL
+        row.update({'name': 'job-private', 'is_pool': 0, 'cloud': jc, 'boot_disk_size_gb': 10, 'max_instances': 10, 'max_live_instances': 10,
+                    'max_new_instances_per_autoscaler_loop': 10, 'autoscaler_loop_period_secs': 15, 'worker_max_idle_time_secs': 30})
+        return row
+
+    def config_of_rows(rows):
+        """this file's reading of served rows: (pools, cloud of the job-private collection)"""
+        pools = {}
+        jc = None
+        for r in rows:
+            if r['is_pool']:
+                pools[r['name']] = g.make_pool_config(r['name'], r['cloud'], r['worker_type'], r['worker_cores'], bool(r['preemptible']), r['label'],
+                                                      bool(r['worker_local_ssd_data_disk']), ext_gb=r['worker_external_ssd_data_disk_size_gb'],
+                                                      boot_gb=r['boot_disk_size_gb'])
+            else:
+                jc = r['cloud']
+        return pools, jc
+
+    def edit_rows(rng, rows, serial, pow2):
+        """one operator edit of the pools rows; returns (new rows, kind)"""
+        rows = copy.deepcopy(rows)
+        pool_rows = [r for r in rows if r['is_pool']]
+        kind = rng.choice(['cores', 'cores', 'cores', 'cores', 'cores', 'label', 'label', 'add', 'add', 'ssd', 'preemptible'])
+        r = rng.choice(pool_rows)
+
+        def cores_ok(local_ssd):
+            ok = [c for c in g.valid_pool_cores(r['cloud'], r['worker_type'], local_ssd) if not pow2 or g.is_pow2(c)]
+            return ok
+
+        def set_cores(c):
+            r['worker_cores'] = c
+            if rng.random() < 0.5 or r['standing_worker_cores'] not in cores_ok(bool(r['worker_local_ssd_data_disk'])):
+                r['standing_worker_cores'] = c  # the size of the standing worker is a separate field of the page
+            if not r['worker_local_ssd_data_disk']:
+                r['worker_external_ssd_data_disk_size_gb'] = 30 + 5 * c
+
+        if kind == 'cores':
+            ok = [c for c in cores_ok(bool(r['worker_local_ssd_data_disk'])) if c != r['worker_cores']]
+            near = [c for c in ok if c in (r['worker_cores'] * 2, r['worker_cores'] // 2)]
+            if not ok:
+                kind = 'label'
+            else:
+                set_cores(rng.choice(near) if near and rng.random() < 0.6 else rng.choice(ok))
+        if kind == 'label':
+            r['label'] = rng.choice([x for x in ['', '', 'seqr', 'large', 'A'] if x != r['label']])
+        elif kind == 'preemptible':  # not on the config page: an operator's SQL
+            r['preemptible'] = 1 - r['preemptible']
+        elif kind == 'ssd':
+            to = 1 - r['worker_local_ssd_data_disk']
+            ok = cores_ok(bool(to))
+            if ok:
+                r['worker_local_ssd_data_disk'] = to
+                r['worker_external_ssd_data_disk_size_gb'] = 0
+                set_cores(r['worker_cores'] if r['worker_cores'] in ok else rng.choice(ok))
+        elif kind == 'add':
+            like = rng.choice(pool_rows)  # often a second pool of an existing kind, with another size / label
+            wt = like['worker_type'] if rng.random() < 0.6 and like['cloud'] == cloud else rng.choice(g.WORKER_TYPES[cloud])
+            ok = [c for c in g.valid_pool_cores(cloud, wt, False) if not pow2 or g.is_pow2(c)]
+            label = rng.choice(['', '', like['label'], 'seqr', 'new'])
+            preemptible = rng.random() < 0.6
+            name = f'{wt}{"-np" if not preemptible else ""}{("-" + label) if label else ""}-added{serial}'
+            rows.append(row_of_pool(g.make_pool_config(name, cloud, wt, rng.choice(ok), preemptible, label, False)))
+        return rows, kind
+
+    _names_memo = {}
+
+    class NamesAsked(dict):
+        def __missing__(self, name):
+            self[name] = 1.0
+            return 1.0
+
+    def resource_names(pools):
+        """the names a complete `resources` table has for these pools (the deployed table has a row for every product version)"""
+        out = set()
+        for p in pools.values():
+            k = (p.cloud, p.worker_type, p.worker_cores, bool(p.worker_local_ssd_data_disk), p.preemptible, p.worker_external_ssd_data_disk_size_gb, p.boot_disk_size_gb)
+            if k not in _names_memo:
+                asked = NamesAsked()
+                pv = g.make_product_versions(known_regions)
+                for loc in possible_cloud_locations(p.cloud):
+                    gib = 1
+                    while gib * GIB <= MAX_STORAGE[p.cloud]:  # the disk product can depend on the size (azure tiers)
+                        p.price_per_hour(asked, pv, loc, 1000, 1024**3, gib)
+                        gib *= 2
+                _names_memo[k] = frozenset(asked)
+            out |= _names_memo[k]
+        return out
+
+    class ConfigDB(g.FakeDB):
+        """the recording fake of gear.Database plus the three configuration tables the front end loads.  A read EXECUTES after
+        `before` loop turns (the snapshot it returns is taken then and logged in ``served``), its rows arrive `between` turns apart."""
+
+        def __init__(self, rows, names):
+            super().__init__()
+            self.rows = rows
+            self.names = sorted(names)
+            self.rate_epoch = 0
+            self.latency = {}
+            self.served = []
+            self.events = []
+
+        def rate(self, name):
+            return 1e-9 * (1 + zlib.crc32(f'{name}/{self.rate_epoch}'.encode()) % 1000)
+
+        def execute_and_fetchall(self, sql, args=None, query_name=None):
+            table = next((t for t in ('inst_colls', 'resources', 'latest_product_versions') if f'FROM {t}' in sql), None)
+            if table is None:
+                raise g.FakeIncomplete(f'configuration read not modelled by the fake database: {sql!r}')
+            db = self
+
+            async def gen():
+                before, between = db.latency.get(table, (0, 0))
+                for _ in range(before):
+                    await asyncio.sleep(0)
+                if table == 'inst_colls':
+                    db.served.append(copy.deepcopy(db.rows))
+                    db.events.append(('served-inst_colls', len(db.served) - 1))
+                    out = copy.deepcopy(db.rows)
+                elif table == 'resources':
+                    out = [{'resource': n, 'rate': db.rate(n)} for n in db.names]
+                else:
+                    out = []
+                for k, rec in enumerate(out):
+                    if k:
+                        for _ in range(between):
+                            await asyncio.sleep(0)
+                    yield rec
+
+            return gen()
+
+        def select_and_fetchall(self, sql, args=None, query_name=None):
+            if 'from regions' not in sql:
+                raise g.FakeIncomplete(f'read not modelled by the fake database: {sql!r}')
+
+            async def gen():
+                await asyncio.sleep(0)
+                for region, region_id in region_bits.items():
+                    yield {'region': region, 'region_id': region_id}
+
+            return gen()
+
+        async def select_and_fetchone(self, sql, args=None, query_name=None):
+            if 'FROM globals' in sql:
+                await asyncio.sleep(0)
+                return {'frozen': 0}
+            return await super().select_and_fetchone(sql, args, query_name)
+
+    def aimed_cores(rng, t):
+        cmax = model.c_max(t)
+        return max(250, rng.choice([cmax, cmax, cmax, cmax // 2, cmax // 2, cmax * 2, 250 * 2 ** rng.randrange(0, 9)]))
+
+    def aimed_request(rng, targets):
+        """a numeric request placed at the decision boundaries of pool `t` of SOME configuration of the history"""
+        t = rng.choice(targets)
+        cores = aimed_cores(rng, t)
+        pcb = model.pcb(t)
+        req = {'cloud': cloud, 'machine_type': None, 'label': t.label if rng.random() < 0.85 else rng.choice(['', 'nope']),
+               'preemptible': t.preemptible if rng.random() < 0.85 else not t.preemptible, 'worker_type': None, 'cores': cores,
+               'mem': gen_bytes_near(rng, [int(Fraction(c, 1000) * pcb) for c in (cores, cores, cores * 2, model.c_max(t))]),
+               'storage': rng.choice([0, 0, 0, GIB, 10 * GIB, 100 * GIB])}
+        z = rng.random()
+        if z < 0.4:
+            req.update(worker_type=t.worker_type, mem=int(Fraction(cores, 1000) * pcb))
+        elif z > 0.92:
+            req.update(machine_type=rng.choice(sorted(model.tables[cloud])), cores=None, mem=None, label='')
+        return req
+
+    wt_to_mem_class = {v: k for k, v in mem_class_to_wt.items()}
+
+    def aimed_resources(rng, targets):
+        """the same, as the resources dict of a job body"""
+        t = rng.choice(targets)
+        cores = aimed_cores(rng, t)
+        res = {}
+        if cores != 1000 or rng.random() < 0.5:
+            res['cpu'] = render_cpu(rng, cores)
+        z = rng.random()
+        if z < 0.45:
+            res['memory'] = wt_to_mem_class[t.worker_type]
+        elif z < 0.85:
+            res['memory'] = render_bytes(rng, gen_bytes_near(rng, [int(Fraction(c, 1000) * model.pcb(t)) for c in (cores, cores, cores * 2)]))
+        if rng.random() < 0.4:
+            res['storage'] = render_bytes(rng, rng.choice([0, GIB, 10 * GIB, 100 * GIB]))
+        if t.label or rng.random() < 0.15:
+            res['pool_label'] = t.label if rng.random() < 0.85 else rng.choice(['', 'nope'])
+        if not t.preemptible or rng.random() < 0.5:
+            res['preemptible'] = t.preemptible if rng.random() < 0.85 else not t.preemptible
+        if rng.random() < 0.06:
+            res = {'machine_type': rng.choice(sorted(model.tables[cloud]))}
+            if rng.random() < 0.5:
+                res['storage'] = render_bytes(rng, rng.choice([GIB, 10 * GIB, 100 * GIB]))
+        return res
+
+    userdata = {'username': 'alice', 'hail_credentials_secret_name': 'alice-gsa-key', 'tokens_secret_name': 'alice-tokens'}
+
+    async def reconfig_history(rng, plan, kinds, requests, w):
+        """plan: the rows after 0, 1, 2, ... operator edits; requests: [('select', req) | ('handler', resources)]"""
+        configs = {}  # index into db.served -> (pools, job-private cloud): the configurations the service was given
+
+        def config(idx):
+            if idx not in configs:
+                configs[idx] = config_of_rows(db.served[idx])
+            return configs[idx]
+
+        names = set()
+        for rows in plan:
+            names |= resource_names(config_of_rows(rows)[0])
+        db = ConfigDB(plan[0], names)
+        events = db.events
+        w['history'] = events
+        fs = g.FakeFileStore()
+        icc = await InstanceCollectionConfigs.create(db)  # what the front end does on start-up
+        icc.product_versions = g.make_product_versions(known_regions)
+        app = {'db': db, 'file_store': fs, 'inst_coll_configs': icc, 'regions': dict(region_bits), 'feature_flags': {}, 'n_tokens': 200}
+        if len(db.served) != 1:
+            raise Inconclusive(f'InstanceCollectionConfigs.create read inst_colls {len(db.served)} times')
+        completed = 0  # index of the rows served to the last load that returned
+        asked_in_flight = set()
+        seen_outcomes = set()
+
+        async def ask(n, tag):
+            """request n, now; judged against the configuration(s) the service may hold now"""
+            level, body = requests[n]
+            wa = dict(w, request_level=level, request_index=n, asked=tag)
+            if level == 'select':
+                req = body
+                wa['request'] = dict(req)
+                ctx.count('reconfig_select_calls')
+                try:
+                    result, exc = icc.select_inst_coll(cloud, req['machine_type'], req['label'], req['preemptible'], req['worker_type'],
+                                                       req['cores'], req['mem'], req['storage'])
+                except Exception as e:  # noqa: BLE001
+                    ctx.violation(classify_crash(e), f'[reconfig] select_inst_coll raised {e!r}', wa)
+                    events.append(('ask', tag, n, 'raised'))
+                    return
+                if exc is not None:
+                    ctx.violation('select/returns-exception-object', f'[reconfig] exc={exc!r}', wa)
+                wa['result'] = result
+                events.append(('ask', tag, n, result))
+
+                def judge(pools, jpc, wj):
+                    return check_selection('reconfig', pools, jpc, req, result, wj)
+            else:
+                sent = dict(body)
+                wa['resources_sent'] = sent
+                jobs = [{'job_id': 1, 'process': {'type': 'docker', 'command': ['true'], 'image': 'ubuntu:22.04'}, 'resources': dict(body)}]
+                try:
+                    validate_and_clean_jobs(jobs)
+                except ValidationError:
+                    ctx.count('reconfig_schema_rejected')
+                    return
+                ctx.count('reconfig_handler_calls')
+                db.format_version = 7
+                db.log.clear()
+                fs.written.clear()
+                try:
+                    await fe._create_jobs(userdata, jobs, 7001, 1, app)
+                    rows = [rows for name, rows in db.log if name == 'insert_jobs']
+                    out = ('ok', rows[0])
+                except web.HTTPException as e:
+                    out = ('http', e.status, e.reason or '')
+                except g.FakeIncomplete as e:
+                    raise Inconclusive(str(e)) from e
+                except Exception as e:  # noqa: BLE001
+                    ctx.violation(classify_crash(e), f'[reconfig] _create_jobs raised {e!r} (HTTP 500) for resources {sent}', wa)
+                    events.append(('ask', tag, n, 'raised'))
+                    return
+                ex = exact_request(sent, wa)
+                if out[0] == 'http':
+                    events.append(('ask', tag, n, f'HTTP {out[1]}: {out[2][:60]}'))
+
+                    def judge(pools, jpc, wj):
+                        return ('rejected', judge_rejected('reconfig', pools, jpc, sent, ex, out[1], out[2], wj))
+                else:
+                    row = dict(zip(g.JOBS_COLUMNS, out[1][0]))
+                    r = jobs[0]['resources']
+                    events.append(('ask', tag, n, (row['inst_coll'], r.get('cores_mcpu'), r.get('memory_bytes'), r.get('storage_gib'))))
+
+                    def judge(pools, jpc, wj):
+                        return judge_accepted('reconfig', pools, jpc, sent, ex, row, r, wj)
+
+            admissible = list(range(len(db.served) - 1, completed - 1, -1))  # newest first
+            verdicts = []
+            for idx in admissible:
+                wj = dict(wa)
+                probe, k = judged_by_probe(lambda: judge(*config(idx), wj))
+                verdicts.append((idx, probe, wj))
+                if not probe.violations:
+                    for name, c in probe.counts:
+                        ctx.count(name, c)
+                    seen_outcomes.add((tag, level) + tuple(map(str, k[:2])))
+                    if idx != admissible[0]:
+                        ctx.count('reconfig_in_flight_answers_right_only_for_the_configuration_being_replaced')
+                    break
+            else:
+                # wrong for every configuration the service may hold now; right for one it held before?
+                idx, probe, wj = min(verdicts, key=lambda v: len(v[1].violations))  # the admissible configuration it is least wrong for (ties: newest)
+                wj['configuration_held'] = {'served_index': idx, 'pools': g.describe_pools(config(idx)[0])}
+                wj['wrong_because'] = [f'{key}: {what}' for key, what in probe.violations]
+                for old in range(completed - 1, -1, -1):
+                    po, _ = judged_by_probe(lambda: judge(*config(old), dict(wa)))
+                    if not po.violations:
+                        wj['right_for_superseded_configuration'] = {'served_index': old, 'pools': g.describe_pools(config(old)[0])}
+                        ctx.violation('reconfig/answer-for-superseded-configuration',
+                                      f'[reconfig] asked {tag}: the answer fits the configuration served to load {old}, not the one the service holds '
+                                      f'(load {idx}): {probe.violations[0][1]}', wj)
+                        break
+                else:
+                    for key, what in probe.violations:
+                        ctx.violation(key, f'{what} (asked {tag}, configuration of load {idx})', wj)
+            if tag == 'in-flight':
+                ctx.count('reconfig_asked_while_reload_in_flight')
+                asked_in_flight.add(n)
+            elif tag == 'after-reload':
+                ctx.count('reconfig_asked_after_reload')
+                if completed > 0:
+                    # would the answer of the previous configuration have been wrong now (is this request sensitive to the edit)?
+                    po, _ = judged_by_probe(lambda: judge(*config(completed - 1), dict(wa)))
+                    if po.violations:
+                        ctx.count('reconfig_answers_changed_by_reload')
+                        if n in asked_in_flight:
+                            ctx.count('reconfig_answers_changed_by_reload_also_asked_in_flight')
+
+        every = list(range(len(requests)))
+        for n in every:
+            await ask(n, 'after-start-up')
+        for epoch in range(1, len(plan)):
+            for n in rng.sample(every, min(len(every), rng.randrange(0, 4))):
+                await ask(n, 'steady')
+            db.rows = plan[epoch]
+            if rng.random() < 0.5:
+                db.rate_epoch += 1  # prices move too: another pool may be the cheapest
+            events.append(('edit', kinds[epoch - 1], g.describe_pools(config_of_rows(plan[epoch])[0])))
+            ctx.count('reconfig_edits' if kinds[epoch - 1] != 'none' else 'reconfig_reloads_without_edit')
+            for kind in kinds[epoch - 1].split('+'):
+                if kind != 'none':
+                    ctx.count(f'reconfig_edit_{kind}')
+            for n in rng.sample(every, min(len(every), rng.randrange(0, 4))):
+                await ask(n, 'edited-not-reloaded')
+            # the periodic reload, with create-jobs requests served while it waits for the database
+            db.latency = {t: (rng.choice([0, 0, 1, 2, 3, 5]), rng.choice([0, 0, 0, 1])) for t in ('inst_colls', 'resources', 'latest_product_versions')}
+            through_front_end = rng.random() < 0.6
+            asked_in_flight.clear()
+            events.append(('reload-starts', 'front_end._refresh' if through_front_end else 'InstanceCollectionConfigs.refresh', dict(db.latency)))
+            served_before = len(db.served)
+            task = loop.create_task(fe._refresh(app) if through_front_end else icc.refresh(db))
+            busy = rng.choice([0.3, 0.6, 0.9])
+            turns = 0
+            while not task.done():
+                if turns and rng.random() < busy:  # turn 0: the reload task has not run yet
+                    await ask(rng.choice(every), 'in-flight')
+                turns += 1
+                if turns > 1000:
+                    raise Inconclusive('the reload did not finish in 1000 loop turns')
+                await asyncio.sleep(0)
+            if task.exception() is not None:
+                ctx.count('reconfig_reloads_raised')
+                events.append(('reload-raised', repr(task.exception())))
+                # not a statement of this property; but nothing after it can be decided by the model of this phase
+                ctx.inconclusive_because(f'[reconfig] a reload raised {task.exception()!r}')
+                return seen_outcomes
+            if len(db.served) != served_before + 1:
+                raise Inconclusive(f'one reload read inst_colls {len(db.served) - served_before} times')
+            completed = len(db.served) - 1
+            events.append(('reload-returned', completed))
+            ctx.count('reconfig_reloads_completed')
+            if through_front_end:
+                ctx.count('reconfig_reloads_through_front_end_refresh')
+            for n in every:
+                await ask(n, 'after-reload')
+        return seen_outcomes
+
+    N = ctx.pick(500, 4000)
+    for i, rng in ctx.cases(N, 'reconfig'):
+        pow2 = rng.random() < 0.5
+        pools0 = g.gen_pool_set(rng, cloud, power_of_two_only=pow2)
+        jp_cloud = cloud if rng.random() < 0.93 else other
+        plan = [[row_of_pool(p) for p in pools0.values()] + [row_of_job_private(jp_cloud)]]
+        kinds = []
+        for e in range(rng.choice([1, 2, 2, 3, 4])):
+            if rng.random() < 0.12:
+                rows, kind = copy.deepcopy(plan[-1]), 'none'  # a reload without an edit
+            else:
+                rows, kind = edit_rows(rng, plan[-1], e, pow2)
+                if rng.random() < 0.25:
+                    rows, k2 = edit_rows(rng, rows, 10 + e, pow2)
+                    kind = f'{kind}+{k2}'
+            plan.append(rows)
+            kinds.append(kind)
+        targets = [p for rows in plan for p in config_of_rows(rows)[0].values() if p.cloud == cloud]
+        requests = []
+        for _ in range(rng.choice([3, 4, 5, 6])):
+            if not targets or rng.random() < 0.15:
+                cores_req, mem_req, storage_req = numeric_request(rng, cloud)
+                if not valid_cores(cores_req):
+                    cores_req = 250 * 2 ** rng.randrange(0, 9)
+                requests.append(('select', {'cloud': cloud, 'machine_type': None, 'label': '', 'preemptible': rng.random() < 0.6, 'worker_type': None,
+                                            'cores': cores_req, 'mem': mem_req, 'storage': storage_req}))
+            elif rng.random() < 0.55:
+                requests.append(('select', aimed_request(rng, targets)))
+            else:
+                requests.append(('handler', aimed_resources(rng, targets)))
+        w = {'cloud': cloud, 'job_private_cloud': jp_cloud, 'pools_at_start_up': g.describe_pools(pools0), 'edits': kinds}
+        ctx.count('reconfig_histories')
+        outcomes = loop.run_until_complete(reconfig_history(rng, plan, kinds, requests, w))
+        ctx.case(sample=w, key=('reconfig', cloud, tuple(kinds), tuple(sorted(outcomes))))
     loop.close()
 
 
@@ -941,4 +1430,19 @@ worktree, quick tier, all caught by the forms phase:
   own     _create_jobs: preemptible read only for the first job of a bunch                                      bunch/singly-accepted-jobs-rejected-together,
                                                                                                                 job-private/stored-machine-spec-below-request
   own     _create_jobs: jvm jobs always get the default storage                                                 storage/granted-below-request
+
+Phase reconfig (added after seeded/C12-agent10 went unseen: every earlier phase built a fresh InstanceCollectionConfigs per generated
+configuration and asked it once - the clause "on every ... pool configuration" was exercised over configurations but never over a
+configuration that CHANGES under a running service, nor through create()/refresh()/from_record at all).  Breaks applied one at a time in a
+scratch worktree, quick tier seed 0, all caught (keys of the reconfig phase first):
+  seeded  C12-agent10: select_inst_coll memoised, memo cleared BEFORE refresh awaits its reads        reconfig/answer-for-superseded-configuration
+  own     PoolConfig.from_record drops the label (label='')                                           match/wrong-label, reject/satisfiable-request-rejected-*
+  own     refresh empties name_pool_config before awaiting the reads                                  reject/satisfiable-request-rejected-* (asked in-flight)
+  own     refresh returns early when the set of pool names is unchanged                               reconfig/answer-for-superseded-configuration
+  own     convert_requests_to_resources memoised in a class-level dict keyed by pool NAME + request   reconfig/answer-for-superseded-configuration, fit/*, reject/*
+  own     refresh updates existing pools only (added pools ignored)                                   reject/satisfiable-request-rejected-*, reconfig/answer-for-...
+  own     refresh fills the live dict row by row with a loop turn between rows                        reject/satisfiable-request-rejected-* (asked in-flight)
+Note on keys: a stationary defect whose wrong answer happens to be right for an EARLIER configuration of the history (e.g. seeded C12-agent4:
+16 cores admitted to a pool shrunk to 8-core workers) is also filed under reconfig/answer-for-superseded-configuration by this phase; the
+stationary phases report it under its own key in the same run.
 """
